@@ -2,6 +2,7 @@ package props
 
 import (
 	"fmt"
+	"go/constant"
 	"go/token"
 	"sort"
 	"strings"
@@ -27,6 +28,15 @@ func init() {
 func appendChain(v ssa.Value) ([]ssa.Value, []*ssa.Call) {
 	var ops []ssa.Value
 	var calls []*ssa.Call
+	// `for _, g := range []T{a, b, c} { x = append(x, f(g)...) }`: the chain is the literal's elements in order
+	if phi, ok := v.(*ssa.Phi); ok {
+		if elems, call := loopOverLiteral(phi); len(elems) > 0 {
+			for range elems {
+				calls = append(calls, call)
+			}
+			return elems, calls
+		}
+	}
 	for {
 		c, ok := v.(*ssa.Call)
 		if !ok || !isBuiltin(c, "append") {
@@ -790,7 +800,7 @@ func (r *Run) checkReaderCountsMismatchOnly(P string) {
 	if f == nil {
 		return
 	}
-	ff := r.E.Facts(f, core.Ctx{})
+	_ = r.E.Facts(f, core.Ctx{})
 	var isCount func(v ssa.Value, depth int) bool
 	isCount = func(v ssa.Value, depth int) bool {
 		if v == nil || depth > 6 {
@@ -813,32 +823,94 @@ func (r *Run) checkReaderCountsMismatchOnly(P string) {
 			return some
 		case *ssa.BinOp:
 			return x.Op == token.ADD && isCount(x.X, depth+1) && isCount(x.Y, depth+1)
+		case *ssa.Parameter:
+			// a count handed to a helper: every call site passes a count
+			fn := x.Parent()
+			idx := -1
+			for i, p := range fn.Params {
+				if p == x {
+					idx = i
+				}
+			}
+			callers := r.callersOf(fn)
+			if idx < 0 || len(callers) == 0 {
+				return false
+			}
+			for _, c := range callers {
+				args := core.CallArgs(c.Common())
+				if idx >= len(args) || !isCount(args[idx], depth+1) {
+					return false
+				}
+			}
+			return true
 		}
 		return false
 	}
 	good := true
 	var det []string
 	nFail := 0
-	for _, b := range f.Blocks {
-		ret, ok := b.Instrs[len(b.Instrs)-1].(*ssa.Return)
-		if !ok || isNilConstV(core.RetOp(ret, 0)) {
-			continue
-		}
-		nFail++
-		// the deciding comparison: the condition of the nearest dominating If whose taken edge leads here
-		dec := decidingCond(b)
-		bo, isCmp := dec.(*ssa.BinOp)
-		switch {
-		case !isCmp:
-			good = false
-			det = append(det, r.P.Pos(ret.Pos())+": rejection not decided by a comparison")
-		case isCount(bo.X, 0) && isCount(bo.Y, 0) && (bo.Op == token.NEQ || bo.Op == token.EQL):
-			// mismatch between two counts
-		default:
-			good = false
-			det = append(det, r.P.Pos(ret.Pos())+": rejection decided by "+ff.TB.Of(bo.X).String()+" "+bo.Op.String()+" "+ff.TB.Of(bo.Y).String()+", which is not a mismatch between two counts")
+	var visit func(g *ssa.Function, depth int)
+	visit = func(g *ssa.Function, depth int) {
+		gf := r.E.Facts(g, core.Ctx{})
+		for _, b := range g.Blocks {
+			ret, ok := b.Instrs[len(b.Instrs)-1].(*ssa.Return)
+			if !ok || isNilConstV(core.RetOp(ret, len(ret.Results)-1)) {
+				continue
+			}
+			// a tail call `return helper(...)`: the helper's rejections are examined instead
+			if depth < 3 {
+				tail := false
+				for _, l := range phiLeaves(core.RetOp(ret, len(ret.Results)-1)) {
+					if c, isCall := l.(*ssa.Call); isCall {
+						if h := c.Common().StaticCallee(); h != nil && h.Pkg == g.Pkg && len(h.Blocks) > 0 && r.P.IsSubject(h) {
+							visit(h, depth+1)
+							tail = true
+						}
+					}
+				}
+				if tail {
+					continue
+				}
+			}
+			// the deciding comparison: the condition of the nearest dominating If whose taken edge leads here
+			dec := decidingCond(b)
+			bo, isCmp := dec.(*ssa.BinOp)
+			// an error propagated from a helper of the package: the helper's rejections are examined instead
+			if isCmp && depth < 3 {
+				var ev ssa.Value
+				if isNilConst2(bo.Y) {
+					ev = bo.X
+				} else if isNilConst2(bo.X) {
+					ev = bo.Y
+				}
+				if ev != nil {
+					for _, l := range phiLeaves(ev) {
+						if c, isCall := l.(*ssa.Call); isCall {
+							if h := c.Common().StaticCallee(); h != nil && h.Pkg == g.Pkg && len(h.Blocks) > 0 && r.P.IsSubject(h) {
+								visit(h, depth+1)
+								ev = nil
+							}
+						}
+					}
+					if ev == nil {
+						continue
+					}
+				}
+			}
+			nFail++
+			switch {
+			case !isCmp:
+				good = false
+				det = append(det, r.P.Pos(ret.Pos())+": rejection not decided by a comparison")
+			case isCount(bo.X, 0) && isCount(bo.Y, 0) && (bo.Op == token.NEQ || bo.Op == token.EQL):
+				// mismatch between two counts
+			default:
+				good = false
+				det = append(det, r.P.Pos(ret.Pos())+": rejection decided by "+gf.TB.Of(bo.X).String()+" "+bo.Op.String()+" "+gf.TB.Of(bo.Y).String()+", which is not a mismatch between two counts")
+			}
 		}
 	}
+	visit(f, 0)
 	r.R.Check(good && nFail >= 4, P+".counts.reader.mismatch.only", "E12 sibling agreement (reader ↔ writer): every rejection of validateBatchFileCounts is decided by an (in)equality between two list lengths (or sums of lengths) — never by a count compared with a constant", core.FuncName(f), r.where(f),
 		"a reader-side rule the writer does not obey makes batches unreadable: a deactivate-only batch written together with deferred or expired operations carries a provisional index and an empty chunk file",
 		fmt.Sprintf("%d rejections, all count mismatches", nFail), strings.Join(det, "; "))
@@ -865,4 +937,108 @@ func decidingCond(b *ssa.BasicBlock) ssa.Value {
 		b = p
 	}
 	return nil
+}
+
+func isNilConst2(v ssa.Value) bool {
+	c, ok := v.(*ssa.Const)
+	return ok && c.Value == nil
+}
+
+// loopOverLiteral: phi is the loop variable of `x = append(x, …elem…)` where elem
+// ranges over a slice literal; returns the literal's elements in index order.
+func loopOverLiteral(phi *ssa.Phi) ([]ssa.Value, *ssa.Call) {
+	var app *ssa.Call
+	for _, e := range phi.Edges {
+		if c, ok := e.(*ssa.Call); ok && isBuiltin(c, "append") && len(c.Common().Args) == 2 {
+			for _, l := range phiLeaves(c.Common().Args[0]) {
+				if l == ssa.Value(phi) {
+					app = c
+				}
+			}
+			if c.Common().Args[0] == ssa.Value(phi) {
+				app = c
+			}
+		}
+	}
+	if app == nil {
+		return nil, nil
+	}
+	// the appended value derives from an element of a literal slice
+	var lit *ssa.Slice
+	seen := map[ssa.Value]bool{}
+	var walk func(v ssa.Value, depth int)
+	walk = func(v ssa.Value, depth int) {
+		if v == nil || seen[v] || depth > 8 || lit != nil {
+			return
+		}
+		seen[v] = true
+		switch x := v.(type) {
+		case *ssa.Call:
+			for _, a := range x.Common().Args {
+				walk(a, depth+1)
+			}
+		case *ssa.UnOp:
+			walk(x.X, depth+1)
+		case *ssa.IndexAddr:
+			if sl, ok := x.X.(*ssa.Slice); ok {
+				if _, isAl := sl.X.(*ssa.Alloc); isAl {
+					lit = sl
+					return
+				}
+			}
+			walk(x.X, depth+1)
+		case *ssa.Extract:
+			walk(x.Tuple, depth+1)
+		case *ssa.Next:
+			walk(x.Iter, depth+1)
+		case *ssa.Range:
+			walk(x.X, depth+1)
+		case *ssa.Slice:
+			if _, isAl := x.X.(*ssa.Alloc); isAl {
+				lit = x
+				return
+			}
+			walk(x.X, depth+1)
+		case *ssa.ChangeType:
+			walk(x.X, depth+1)
+		case *ssa.Convert:
+			walk(x.X, depth+1)
+		}
+	}
+	walk(app.Common().Args[1], 0)
+	if lit == nil {
+		return nil, nil
+	}
+	al := lit.X.(*ssa.Alloc)
+	type ent struct {
+		idx int64
+		v   ssa.Value
+	}
+	var ents []ent
+	if refs := al.Referrers(); refs != nil {
+		for _, rf := range *refs {
+			ia, ok := rf.(*ssa.IndexAddr)
+			if !ok {
+				continue
+			}
+			k, isK := ia.Index.(*ssa.Const)
+			if !isK || k.Value == nil {
+				continue
+			}
+			n, _ := constant.Int64Val(k.Value)
+			if irefs := ia.Referrers(); irefs != nil {
+				for _, ir := range *irefs {
+					if st, ok := ir.(*ssa.Store); ok && st.Addr == ssa.Value(ia) {
+						ents = append(ents, ent{n, st.Val})
+					}
+				}
+			}
+		}
+	}
+	sort.Slice(ents, func(i, j int) bool { return ents[i].idx < ents[j].idx })
+	var out []ssa.Value
+	for _, e := range ents {
+		out = append(out, e.v)
+	}
+	return out, app
 }
